@@ -70,7 +70,7 @@ def expr_for(rng: random.Random, value: int, names: Dict[str, int], dollar: Opti
     """an expression text that evaluates to `value` (unbounded integers) using the given names."""
     choices = ['lit']
     if names:
-        choices += ['name+', 'name+', 'name-', 'namexor', 'nested']
+        choices += ['name+', 'name+', 'name-', 'namexor', 'nested', 'logic']
     if dollar is not None:
         choices += ['dollar', 'dollar']
     if depth > 0:
@@ -82,6 +82,13 @@ def expr_for(rng: random.Random, value: int, names: Dict[str, int], dollar: Opti
         assert dollar is not None
         d = value - dollar
         return '$' if d == 0 else (f'$ + {lit(rng, d)}' if d > 0 else f'$ - {lit(rng, -d)}')
+    if kind == 'logic':
+        # the logical operators normalise to 0 / 1 whatever their (symbolic) operand is worth
+        name = rng.choice(sorted(names))
+        truth = 1 if names[name] != 0 else 0
+        form = rng.randrange(4)
+        inner = [f'{name} && 1', f'1 && {name}', f'{name} || 0', f'0 || {name}'][form]
+        return f'({lit(rng, value - truth + 5)} + ({inner})) - 5' if value - truth + 5 >= 0 else f'({inner}) + {lit(rng, value - truth)}'
     if kind in ('name+', 'name-', 'namexor', 'nested'):
         name = rng.choice(sorted(names))
         nv = names[name]
